@@ -387,6 +387,18 @@ func TestVerifBoundedC18(t *testing.T) {
 			}
 		}
 	}
+	// values whose standard encoding has no %XX escape (a space is '+'): content-sensitive rules must see the decoded value
+	for _, sv := range []string{"a b", "hello world", " a", "a+b"} {
+		for _, rl := range [][]string{{"in=(a b/hello world/ a)"}, {"include=( )"}, {"prefix=a "}, {"suffix= world"}, {"eq=3"}, {"re='^[a-z ]+$'"}} {
+			ref := len(wbClauses(Var(sv, rl...)))
+			for _, extra := range []string{"", "before", "after"} {
+				n++
+				if got := wbThroughUrl(sv, rl, true, extra); len(wbClauses(got)) != ref {
+					rep.report("C18.url.space", "value %q rules %q (query-escaped, other parameter %s): Var reports %d violated rules, Url reports %d (%v)", sv, rl, extra, ref, len(wbClauses(got)), got)
+				}
+			}
+		}
+	}
 	// a bare key (no '=') is an empty value wherever it stands
 	for _, q := range []string{"k", "other=zzz&k", "k&other=zzz", "k=", "other=zzz&k="} {
 		n++
@@ -585,6 +597,15 @@ func TestVerifBoundedC17(t *testing.T) {
 								err = Struct(&w)
 								if count(err, "they shouldn't all be empty") != 3*wantE || count(err, "they should be equal") != 3*wantB {
 									rep.report("C17.perobject", "object %+v placed in a slice (between two satisfied siblings), behind a pointer and in a map: %d either and %d botheq clauses, want %d and %d (groups are judged per object): %v", g, count(err, "they shouldn't all be empty"), count(err, "they should be equal"), 3*wantE, 3*wantB, err)
+								}
+								// maps whose keys are not strings: the entries are still separate objects
+								type WI struct {
+									MI map[int32]G `valid:"exist"`
+								}
+								for what, e2 := range map[string]error{"field map[int32]G": Struct(&WI{MI: map[int32]G{1: g, 2: ok}}), "top-level map[uint8]*G": Struct(map[uint8]*G{3: &g, 4: &ok})} {
+									if count(e2, "they shouldn't all be empty") != wantE || count(e2, "they should be equal") != wantB {
+										rep.report("C17.perobject.key", "object %+v next to a satisfied sibling in a %s: %d either and %d botheq clauses, want %d and %d: %v", g, what, count(e2, "they shouldn't all be empty"), count(e2, "they should be equal"), wantE, wantB, e2)
+									}
 								}
 							}
 						}
